@@ -62,6 +62,24 @@ var propCfgs = []*propCfg{
 		Stub:        []string{"the crash: instead of SIGKILL, the file image a kill would leave is rebuilt from the write log (checked on every run to reproduce the real file byte for byte)"},
 		Assumptions: []string{"a killed process loses nothing that a completed pwrite put into the page cache (process kill, not power loss)", "a pwrite interrupted by SIGKILL leaves a page-aligned prefix of its data", "bbolt mutates the database file only through db.ops.writeAt and db.file.Truncate (self-checked: the log must reproduce the file)"},
 	},
+	{
+		ID: "C29", Level: "exploration",
+		Quick:    tierCfg{Seeds: 6000, Secs: 60, Batch: 200},
+		Thorough: tierCfg{Seeds: 300000, Secs: 600, Batch: 500},
+		Rule:     "one evaluation = one seeded interleaving, at operation granularity, of up to 3 sessions (hybrid stores over one real database file) adding commands, an outside process adding commands directly, sessions opening cursors (10 prefixes, with and without de-duplication) and single Prev/Next steps of up to 4 open walks, so that other parties' additions land between the steps of a walk; every Get after every move and every AllCmds is compared with the per-session view model; distinct = distinct event sequence; non-trivial = at least one cursor was opened",
+		Real:     []string{"pkg/cli/histutil hybridStore, dbStore, memStore, dedupCursor; pkg/store + bbolt on a tmpfs file as the shared database"},
+		Stub:     []string{},
+		Assumptions: []string{"sessions are interleaved at whole-operation granularity (each store call is sequential code; concurrent daemon access is C26)", "a cursor's view of the session's own additions is the one at cursor creation"},
+	},
+	{
+		ID: "C31", Level: "exploration",
+		Quick:    tierCfg{Seeds: 20000, Secs: 60, Batch: 500},
+		Thorough: tierCfg{Seeds: 1500000, Secs: 600, Batch: 2000},
+		Rule:     "one evaluation = one generated byte stream with a simulated arrival time per byte on the fake clock (gaps drawn at 0, well below, just under and just over the 10 ms sequence time-outs, tens of ms, and multi-second stalls): either escape soup (ESC, CSI/SS3 introducers, digits, separators, mouse and paste terminators, truncated sequences, high and invalid bytes) or printable UTF-8 text with intra-character gaps below the UTF-8 time-out; the real decoder is called until the stream ends; distinct = distinct (bytes, gaps) stream; non-trivial = non-empty stream",
+		Real:     []string{"pkg/cli/term readEvent (escape-sequence state machine), readRune (UTF-8 assembly), parseCSI, key tables"},
+		Stub:     []string{"the terminal: a byte source implementing the decoder's existing byteReaderWithTimeout interface, delivering bytes at tape-chosen fake times (the real poll(2)-based file reader is not exercised)"},
+		Assumptions: []string{"time is the fake clock of a testing/synctest bubble; gaps are never exactly equal to a time-out", "the poll/EINTR loop of the real file reader (bReader) is outside this check"},
+	},
 }
 
 func findProp(id string) *propCfg {
